@@ -435,12 +435,22 @@ def fam_dqn(ps, optk, hid, case):
             step = jit_step(loss) if case["mode"] == "jit" else partial(train_step_with_loss, loss)
 
             def ref():
+                # the obligation "a non-zero gradient moves the network" is decided by a harness-written TD regression
+                # (any squared / Huber TD loss has a non-zero gradient exactly when this one has); the repository's own loss
+                # only reports the gradient w.r.t. the target for the at-risk counter
+                use_t = "q_target" in part
+
+                def td_fn(q_, qt_, dat):
+                    o, a_, r, no, t = dat
+                    boot = jnp.max(jax.lax.stop_gradient((qt_ if use_t else q_)(no)), axis=-1)
+                    y = r + GAMMA * (1 - t) * boot
+                    return jnp.mean((jnp.take_along_axis(q_(o), a_[:, None].astype(jnp.int32), axis=1)[:, 0] - jax.lax.stop_gradient(y)) ** 2)
+
+                out = dict(q=refgrad("dqn:harness-td" + str(use_t), td_fn, (q, qt), batch)[0])
                 if "q_target" in part:
                     fn = lambda q_, qt_, dat: loss(q_, qt_, *dat)[0]  # noqa: E731
-                    g = refgrad("dqn:" + ln, fn, (q, qt), args()[1:])
-                    return dict(q=g[0], q_target=g[1])
-                fn = lambda q_, dat: loss(q_, *dat)[0]  # noqa: E731
-                return dict(q=refgrad("dqn:" + ln, fn, (q,), args())[0])
+                    out["q_target"] = refgrad("dqn:" + ln, fn, (q, qt), args()[1:])[1]
+                return out
 
             return Op(f"train_step_with_loss[{ln}]", lambda: step(qo, q, *args()), comps, part + ["q_optimizer"],
                       trained=["q"], allowed=["q_optimizer"], ref=ref)
@@ -1129,6 +1139,8 @@ EAGER_UPDATES["dqn_mt"] = EAGER_UPDATES["dqn"]
 
 def cases_for(fam, N, tier, seed):
     nr = 2 if tier == "quick" else 3
+    if fam == "dqn":
+        nr = 3  # the x100 reward vector too (every |TD error| far above 1)
     out = []
     if fam.endswith("_mt"):
         return cases_for(fam[:-3], N, tier, seed)
